@@ -22,6 +22,7 @@ RULE = (
     "referrers, missing reference = SigmaError at load time, resolving twice changes nothing. non-trivial = permutation in "
     "which some referrer precedes a rule it references."
 )
+RULE += (" " + 'Load paths include error-collecting variants (from_yaml, merge of separately loaded parts, load_ruleset with collect_errors=True; the first collected error stands for the raised one). Templates include references given only by an extended condition and generation asked for inside correlation chains.')
 ASSUMPTIONS = ["reference for the emitted set: a rule emits iff it is unreferenced or referenced only by generating correlations (mixed: only order independence)",
                "correlation query text itself is judged by C10; here it must be identical across orders"]
 K = V.K(correlation={"typing": True})
